@@ -697,7 +697,35 @@ def usable_as_field(ns, c):
         return False
     return True
 
+def gen_bad_op(rng, ns, world):
+    """the malformed stream: operations the implementation must refuse (and leave everything as it
+    was), or accepts in a corner of its language"""
+    pool = world.pool
+    hs = list(range(len(pool)))
+    bounded = [h for h in hs if issubclass(pool[h], ns.Decimal) and getattr(pool[h].Attributes, 'min_bound', None) is not None]
+    decimals = [h for h in hs if issubclass(pool[h], ns.Decimal)]
+    cust_with_fields = [h for h in hs if h >= NBASE and issubclass(pool[h], ns.ComplexModelBase)
+                        and not issubclass(pool[h], ns.Array) and pool[h].__orig__ is not None and len(pool[h]._type_info)]
+    r = rng.random()
+    if r < 0.2:
+        return ['mand', rng.choice([H_ARRAY, H_ITERABLE])]              # Mandatory of an array without a member
+    if r < 0.5 and bounded:
+        kw = rng.choice([[['le', -3000000000]], [['lt', -2147483648]], [['ge', 2147483648]], [['gt', 2147483647]],
+                         [['ge', 0], ['lt', -2147483648]], [['le', 5], ['gt', 4000000000]]])
+        return ['cust', rng.choice(bounded), kw, None, None, None, rng.choice(['call', 'customize', 'index'])]
+    if r < 0.75:
+        kw = rng.choice([[['total_digits', 0], ['fraction_digits', 0]], [['total_digits', 2], ['fraction_digits', 5]],
+                         [['fraction_digits', 3], ['total_digits', 1], ['ge', 0]]])
+        return ['cust', rng.choice(decimals), kw, None, None, None, rng.choice(['call', 'customize'])]
+    if r < 0.9 and cust_with_fields:
+        world.names += 1
+        return ['sub', rng.choice(cust_with_fields), 'K%d' % world.names, [[rng.choice(FIELD_NAMES), 3]]]
+    return ['array', rng.choice([H_ARRAY, H_ITERABLE]), rng.choice([H_ARRAY, H_ITERABLE]), []]   # Array(Array)
+
+
 def gen_op(rng, ns, world):
+    if rng.random() < 0.08:
+        return gen_bad_op(rng, ns, world)
     pool = world.pool
     hs = list(range(len(pool)))
     simple = [h for h in hs if issubclass(pool[h], ns.SimpleModel)]
@@ -791,6 +819,11 @@ def corpus():
         [['cust', U, [['max_len', 10]], None, None, None, 'call'], ['mand', NBASE], ['mand', U], ['mand', I],
          ['cust', NBASE, [['max_len', {'inf': 1}]], None, None, None, 'customize'],
          ['sub', 0, 'E', []], ['sub', NBASE + 5, 'F', [['f', NBASE]]], ['sub', NBASE + 6, 'G', [['g', I]]]],
+        # the witnesses of the non-vacuity examples (coq/C15/ExStore.v: ex_hist, then evolution)
+        [['sub', 0, 'K', [['a', I], ['b', U]]],
+         ['cust', NBASE, [['min_occurs', 1]], [['a', [['min_occurs', 1]]]], None, None, 'customize'],
+         ['sub', NBASE, 'L', [['z', U]]], ['array', 1, NBASE, []], ['mand', NBASE + 3],
+         ['app', NBASE, 'z', I], ['ins', NBASE, 1, 'K', U], ['cust', NBASE + 2, [], None, [['nillable', False]], [['z', [['max_occurs', 2]]]], 'customize']],
         [['cust', 6, [['le', -3000000000]], None, None, None, 'call'], ['cust', 6, [['gt', 2147483647]], None, None, None, 'call'],
          ['cust', 7, [['total_digits', 0], ['fraction_digits', 0]], None, None, None, 'call'],
          ['sub', 0, 'H', [['a', I]]], ['cust', NBASE, [], None, None, None, 'customize'], ['sub', NBASE + 1, 'J', [['b', I]]]],
